@@ -1142,6 +1142,45 @@ def computehash_rule(A, rule):
         rule.fail(ch, "hexdigest()", "_computehash no longer returns the hex digest", A.p.loc(ch, ch.node))
 
 
+def int_config_rule(A, rh15):
+    """C15.h / C14.i: depth and width are integers where they are recorded and where they are used"""
+    b = A.p.func(Q("_build_hashstore_yaml_string"))
+    dicts = [n for n in ast.walk(b.node) if isinstance(n, ast.Dict) and n.keys]
+    if not dicts:
+        raise AnalysisError("_build_hashstore_yaml_string: configuration dict literal not found")
+    it_i = A.run(Q("__init__"), "th")
+    bq = A.impl_q("_build_hashstore_yaml_string")
+    for c in it_i.calls:
+        if c["callee"] != bq:
+            continue
+        for k, v in zip(dicts[0].keys, dicts[0].values):
+            if not (isinstance(k, ast.Constant) and k.value in ("store_depth", "store_width") and isinstance(v, ast.Name)):
+                continue
+            vals = (c.get("argmap") or {}).get(v.id)
+            if vals is None:
+                continue
+            rh15.ob()
+            rh15.inst(f"{c['func'].qual}:{c['node'].lineno} {k.value} <- {sorted(tag(t) for t in vals)}")
+            bad = [t for t in vals if not (tag(t) == "int" or (is_const(t) and isinstance(t[1], int) and not isinstance(t[1], bool)))]
+            if bad:
+                rh15.fail(c["func"], c["node"], f"`{k.value}` reaches the hashstore.yaml writer without integer coercion: the constructor accepts integer-like "
+                          "strings, which would be recorded as YAML strings that other HashStore implementations / versions refuse",
+                          A.p.loc(c["func"], c["node"]), {"value": [showv(frozenset([t]))[:80] for t in bad]})
+    # the same for the values the instance itself works with: _shard multiplies and slices with them
+    for attr_, key_ in (("depth", "store_depth"), ("width", "store_width")):
+        vals = it_i.attr_assigns.get(attr_)
+        if vals is None:
+            continue
+        rh15.ob()
+        rh15.inst(f"self.{attr_} <- {sorted(tag(t) for t in vals)}")
+        bad = [t for t in vals if not (tag(t) == "int" or (is_const(t) and isinstance(t[1], int) and not isinstance(t[1], bool)))]
+        if bad:
+            init_f = A.p.func(Q("__init__"))
+            rh15.fail(init_f, f"self.{attr_}", f"the constructor keeps `{key_}` as the caller spelled it ({showv(frozenset(bad))[:60]}), not the integer the validator "
+                      "made of it: a store opened with the (accepted) spelling \"3\" cannot compute a single address - _shard's range() and slices need integers",
+                      A.p.loc(init_f, init_f.node))
+
+
 def check_C15(A: Analysis, tier):
     rules = []
     ra = Rule("C15", "C15.a", "every primitive on a permanent file uses the README address of its class: objects/"
@@ -1431,24 +1470,7 @@ def check_C15(A: Analysis, tier):
     # integer-like strings, so what reaches the writer must have passed the integer coercion of the validator
     rh15 = Rule("C15", "C15.h", "the depth and width written to hashstore.yaml are integers: at the call that builds the file's text from the "
                 "constructor, both values are results of int(...) (the validated copy), not the properties as the caller spelled them", floor=2)
-    it_i = A.run(Q("__init__"), "th")
-    bq = A.impl_q("_build_hashstore_yaml_string")
-    for c in it_i.calls:
-        if c["callee"] != bq:
-            continue
-        for k, v in zip(dicts[0].keys, dicts[0].values):
-            if not (isinstance(k, ast.Constant) and k.value in ("store_depth", "store_width") and isinstance(v, ast.Name)):
-                continue
-            vals = (c.get("argmap") or {}).get(v.id)
-            if vals is None:
-                continue
-            rh15.ob()
-            rh15.inst(f"{c['func'].qual}:{c['node'].lineno} {k.value} <- {sorted(tag(t) for t in vals)}")
-            bad = [t for t in vals if not (tag(t) == "int" or (is_const(t) and isinstance(t[1], int) and not isinstance(t[1], bool)))]
-            if bad:
-                rh15.fail(c["func"], c["node"], f"`{k.value}` reaches the hashstore.yaml writer without integer coercion: the constructor accepts integer-like "
-                          "strings, which would be recorded as YAML strings that other HashStore implementations / versions refuse",
-                          A.p.loc(c["func"], c["node"]), {"value": [showv(frozenset([t]))[:80] for t in bad]})
+    int_config_rule(A, rh15)
     rules.append(rh15)
     _src = [r for r in rules_of(A, "C11") if r.rid == "C11.a"][0]
     ri15 = Rule("C15", "C15.i", "a metadata document is addressed metadata/shard(H(pid))/H(pid + format_id) with the format id exactly as given "
